@@ -122,7 +122,8 @@ def cases_for(ctx, name, presc, voices):
             add([no, v], form="char" if name == "y" else "paren")
     elif kind == "Program":
         f = "char" if name == "@" else None
-        ns = list(range(1, 129)) if ctx.tier == "thorough" else [1, 2, 64, 127, 128]
+        # the whole documented domain also in the quick tier for the one-character spelling (128 cheap cases)
+        ns = list(range(1, 129)) if (ctx.tier == "thorough" or name == "@") else [1, 2, 64, 127, 128]
         for n in ns + [0, 129, -3, 1000]:
             add([n], form=f or "paren")
         for n, m, l in [(1, 0, 0), (128, 127, 127), (5, 1, 2), (26, 8, 0), (49, 0, 3), (1, 128, 0), (1, 0, 128), (0, 1, 1), (129, 1, 1)]:
@@ -131,7 +132,9 @@ def cases_for(ctx, name, presc, voices):
         for vn, no in voices:
             add([no], form=f or "paren", argsrc=vn, origin="voice")
     elif kind == "Tempo":
-        ts = list(range(10, 301)) if ctx.tier == "thorough" else [10, 11, 59, 60, 61, 119, 120, 121, 240, 299, 300]
+        # the whole documented domain also in the quick tier for the main spelling (291 cheap cases): a rounding slip shows at a
+        # single value (seeded change C15-7: 151 only)
+        ts = list(range(10, 301)) if (ctx.tier == "thorough" or name == "Tempo") else [10, 11, 59, 60, 61, 119, 120, 121, 151, 240, 299, 300]
         for t in ts + [9, 301, 0, -5, 1, 100000]:
             add([t])
     elif kind == "TimeSig":
@@ -625,7 +628,7 @@ def run(ctx):
             text_names.append(n)
             continue
         cases += cases_for(ctx, n, p, voices)
-    cases += [Case("TempoChange", [v], origin="table") for v in [120, 10, 300, 1, 0, -3, 60000001]]
+    cases += [Case("TempoChange", [v], origin="table") for v in [120, 10, 300, 1, 0, -3, 60000001] + list(range(11, 300))]
     cases += text_cases(ctx, text_names)
     ctx.dist["spellings_with_prescription"] = sum(1 for n in prescs if prescs[n] != "NONE")
     ctx.dist["spellings_without_prescription"] = sum(1 for n in prescs if prescs[n] == "NONE")
